@@ -9,4 +9,4 @@ GEN=""
 if command -v ninja >/dev/null 2>&1; then GEN="-G Ninja"; fi
 cmake $GEN -S "$REPO" -B "$OUT" -DCMAKE_BUILD_TYPE=RelWithDebInfo >"$OUT/configure.log" 2>&1 || { cat "$OUT/configure.log"; exit 2; }
 cmake --build "$OUT" -j16 >"$OUT/build.log" 2>&1 || { tail -50 "$OUT/build.log"; exit 2; }
-ctest --test-dir "$OUT" -j8 --timeout 900
+ctest --test-dir "$OUT" -j8 --timeout "${VERIF_CTEST_TIMEOUT:-900}"
